@@ -954,6 +954,15 @@ def _find_iters(env):
     return out
 
 
+def _has_concrete_iter(env):
+    e = env
+    while e is not None:
+        if any(isinstance(v, V.ConcreteIter) for v in e.vars.values()):
+            return True
+        e = e.parent
+    return False
+
+
 def exec_count_loop(engine, ctx, st, env):
     """`for i in itertools.count(): body` with a sidecar invariant.  The loop is left by break / return / raise only.
        Loop-carried state: the local names assigned in the body and the position of every string iterator in scope."""
@@ -963,6 +972,17 @@ def exec_count_loop(engine, ctx, st, env):
 
     qual = env.finfo.qualname if env.finfo is not None else ""
     k = loops.loop_ordinal(env, st)
+    if not _find_iters(env) and _has_concrete_iter(env):
+        # every iterator in scope is over a concrete string: the loop is simply executed (bounded by the input's length)
+        for n in range(4096):
+            engine.assign(ctx, st.target, n, env)
+            try:
+                engine.exec_block(ctx, st.body, env)
+            except ContinueSig:
+                continue
+            except BreakSig:
+                return
+        raise EngineLimit("loop over itertools.count() did not end on a concrete input")
     inv = engine.reg.loops.get((qual, k))
     if inv is None:
         raise EngineLimit("loop over itertools.count() without an invariant")
@@ -1048,8 +1068,14 @@ class TupleOf(Kind):
     def sort(self):
         raise EngineLimit("tuple has no single sort")
 
+    def __repr__(self):
+        return "Tuple(%s)" % ", ".join(repr(k) for k in self.kinds)
+
 
 class _OpaqueK(Kind):
+    def __repr__(self):
+        return "Node"
+
     def build(self, ctx, mk):
         return V.Opaque("parse tree node")
 
@@ -1071,15 +1097,45 @@ INT_VALUE = _uf("int_literal_value", z3.StringSort(), z3.IntSort(), z3.IntSort()
 FRAC_OK = _uf("fraction_literal_ok", z3.StringSort(), z3.BoolSort())
 FRAC_VALUE = _uf("fraction_literal_value", z3.StringSort(), z3.RealSort())
 
+DIGITS = _uf("digits_value", z3.StringSort(), z3.IntSort(), z3.IntSort())
+ASSUMED.update({
+    "int(str, base) value": "int(s, base) ignores single underscores between digits (PEP 515): its value is that of the text "
+                            "c = s.replace('_', ''); base 0 reads the prefix of c: 0x/0X -> 16, 0o/0O -> 8, 0b/0B -> 2, none -> "
+                            "10; the value is digits_value(digits of c after the prefix, base) - positional notation, "
+                            "uninterpreted; ValueError unless int_literal_ok(c, base)",
+})
+
+
+def clean_underscores(t):
+    """t.replace('_', '') as a term; idempotent by construction"""
+    if z3.is_app(t) and t.decl().name() == "strrepl" and z3.is_string_value(t.arg(1)) and t.arg(1).as_string() == "_" \
+            and z3.is_string_value(t.arg(2)) and t.arg(2).as_string() == "":
+        return t
+    return STRREPL(t, z3.StringVal("_"), z3.StringVal(""))
+
+
+def int_literal_value(c, base):
+    """value of the cleaned literal text c read with int(c, base), base in (0, 10)"""
+    if base == 10:
+        return DIGITS(c, z3.IntVal(10))
+    p = z3.SubString(c, 0, 2)
+    body = z3.SubString(c, 2, z3.Length(c) - 2)
+    is_p = lambda a, b: z3.Or(p == z3.StringVal(a), p == z3.StringVal(b))
+    return z3.If(is_p("0x", "0X"), DIGITS(body, z3.IntVal(16)),
+                 z3.If(is_p("0o", "0O"), DIGITS(body, z3.IntVal(8)),
+                       z3.If(is_p("0b", "0B"), DIGITS(body, z3.IntVal(2)), DIGITS(c, z3.IntVal(10)))))
+
+
 _orig_bi_int3 = Lib.bi_int
 
 
 def bi_int3(self, ctx, x=0, base=None):
     if isinstance(x, z3.ExprRef) and z3.is_string(x) and base in (None, 0, 10):
-        b = z3.IntVal(10 if base is None else base)
-        if ctx.decide(z3.Not(INT_OK(x, b))):
+        b = 10 if base is None else base
+        c = clean_underscores(x)
+        if ctx.decide(z3.Not(INT_OK(c, z3.IntVal(b)))):
             raise self.raise_ext("ValueError", "int(): invalid literal")
-        return INT_VALUE(x, b)
+        return int_literal_value(c, b)
     return _orig_bi_int3(self, ctx, x, base)
 
 
@@ -1090,9 +1146,10 @@ _orig_Fraction3 = Lib.bi_fractions_Fraction
 
 def bi_fractions_Fraction3(self, ctx, num=0, den=None):
     if isinstance(num, z3.ExprRef) and z3.is_string(num) and den is None:
-        if ctx.decide(z3.Not(FRAC_OK(num))):
+        c = clean_underscores(num)  # Fraction(str) accepts the same digit separators
+        if ctx.decide(z3.Not(FRAC_OK(c))):
             raise self.raise_ext("ValueError", "Fraction(): invalid literal")
-        return V.FractionV(FRAC_VALUE(num))
+        return V.FractionV(FRAC_VALUE(c))
     return _orig_Fraction3(self, ctx, num, den)
 
 
@@ -1472,3 +1529,171 @@ def _install_argminmax():
 
 
 _install_argminmax()
+
+
+# ---------------------------------------------------------------------------------------------------- operator chains
+ASSUMED.update({
+    "operator callables of a parse tree": "the callables that the op2_* visitors hand to a chain visitor are the operator "
+                                          "functions of pydsdl._expression (binary wrappers / attribute): applied to "
+                                          "(left, right) they return an expression value apply_op(op, left, right) - a "
+                                          "function of the callable and its two arguments in this order - or raise a "
+                                          "subclass of InvalidOperandError (contracts of the wrappers, specs/expr.py)",
+})
+ChainItemSort = z3.DeclareSort("ChainItem")
+CH_OP = _uf("chain!operator", ChainItemSort, z3.IntSort())
+CH_RIGHT = _uf("chain!right", ChainItemSort, V.RefSort)
+CH_NAME = _uf("chain!identifier", ChainItemSort, z3.StringSort())
+APPLY_OP = _uf("apply_op", z3.IntSort(), V.RefSort, V.RefSort, V.RefSort)
+APPLY_ATTR = _uf("apply_attribute", z3.IntSort(), V.RefSort, z3.StringSort(), V.RefSort)
+
+
+class OperatorV:
+    """An operator callable taken from a parse tree (symbolic identity)."""
+
+    def __init__(self, ident):
+        self.ident = ident
+
+    def __repr__(self):
+        return "<operator %s>" % self.ident
+
+
+class ChainItemK(Kind):
+    """One `(_? op _? operand)` group of an operator chain: (blank, operator callable, blank, right operand).
+    `named`: the right operand is an identifier (attribute chain), else an expression value."""
+
+    def __init__(self, named=False):
+        self.named = named
+
+    def sort(self):
+        return ChainItemSort
+
+    def wrap(self, ctx, term):
+        right = CH_NAME(term) if self.named else V.ObjOf("pydsdl._expression._any.Any").wrap(ctx, CH_RIGHT(term))
+        if not self.named:
+            ctx.engine.assume_class_range(ctx, right)
+        return (V.Opaque("blank"), OperatorV(CH_OP(term)), V.Opaque("blank"), right)
+
+    def unwrap(self, v):
+        raise EngineLimit("a chain item cannot be built by the code under contract")
+
+    def __repr__(self):
+        return "ChainItem(right=%s)" % ("identifier" if self.named else "value")
+
+
+_orig_engine_call = Engine.call
+
+
+def engine_call(self, ctx, callee, args, kwargs):
+    if isinstance(callee, OperatorV):
+        if kwargs or len(args) != 2 or not isinstance(args[0], Obj):
+            raise EngineLimit("operator callable applied to %r" % (args,))
+        if ctx.choose(2) == 1:
+            raise PyRaise(ExcVal(self.exc_class("InvalidOperandError")))
+        left, right = args
+        if isinstance(right, Obj):
+            r = APPLY_OP(callee.ident, left.ref, right.ref)
+        else:
+            r = APPLY_ATTR(callee.ident, left.ref, V.Str.unwrap(right))
+        res = V.ObjOf("pydsdl._expression._any.Any").wrap(ctx, r)
+        self.assume_class_range(ctx, res)
+        return res
+    return _orig_engine_call(self, ctx, callee, args, kwargs)
+
+
+Engine.call = engine_call
+FOLD = _uf("chain!fold", z3.ArraySort(z3.IntSort(), ChainItemSort), V.RefSort, z3.IntSort(), V.RefSort)
+FOLD_NAMED = _uf("chain!fold_named", z3.ArraySort(z3.IntSort(), ChainItemSort), V.RefSort, z3.IntSort(), V.RefSort)
+
+
+def fold_term(ctx, seq: SymSeq, first: Obj, n, named: bool):
+    """foldl over the first n items of the chain, starting from `first` (definition by recursion on n, stated as an axiom
+    that is instantiated where the fold of a prefix and the next item meet)."""
+    F = FOLD_NAMED if named else FOLD
+    i = z3.FreshConst(z3.IntSort(), "fi")
+    it = z3.Select(seq.arr, i)
+    step = APPLY_ATTR(CH_OP(it), F(seq.arr, first.ref, i), CH_NAME(it)) if named else \
+        APPLY_OP(CH_OP(it), F(seq.arr, first.ref, i), CH_RIGHT(it))
+    body = z3.Implies(i >= 0, F(seq.arr, first.ref, i + 1) == step)
+    try:
+        ctx.add_axiom(z3.ForAll([i], body, patterns=[z3.MultiPattern(F(seq.arr, first.ref, i), it)]))
+    except z3.Z3Exception:  # the sequence is not a plain array name (e.g. a slice): no explicit trigger
+        ctx.add_axiom(z3.ForAll([i], body))
+    ctx.add_axiom(F(seq.arr, first.ref, z3.IntVal(0)) == first.ref)
+    return F(seq.arr, first.ref, n)
+
+
+# ---------------------------------------------------------------------------------------------------- concrete evaluation
+_orig_call_method = Lib.call_method
+
+
+def call_method(self, ctx, o, name, args, kwargs):
+    """Methods of a *concrete* str with concrete arguments are evaluated by the running CPython."""
+    if isinstance(o, str) and not kwargs and all(isinstance(a, (str, int)) and not isinstance(a, bool) for a in args) \
+            and getattr(self, "m_str_" + name, None) is None and hasattr(str, name) and not name.startswith("_"):
+        try:
+            r = getattr(o, name)(*args)
+        except (ValueError, TypeError, IndexError) as ex:
+            raise self.raise_ext(type(ex).__name__, "str.%s" % name)
+        if isinstance(r, list):
+            return PyList(r)
+        if isinstance(r, (str, int, bool, tuple)):
+            return r
+        raise EngineLimit("result of str.%s" % name)
+    return _orig_call_method(self, ctx, o, name, args, kwargs)
+
+
+Lib.call_method = call_method
+
+_orig_binop2 = Lib.binop
+
+
+def _concrete_fraction(v):
+    import fractions
+
+    if isinstance(v, V.FractionV):
+        t = z3.simplify(v.term)
+        if z3.is_rational_value(t):
+            return fractions.Fraction(t.numerator_as_long(), t.denominator_as_long())
+    return None
+
+
+def binop2(self, ctx, op, a, b):
+    # int ** negative int is a float in Python
+    if isinstance(op, ast.Pow) and isinstance(a, int) and isinstance(b, int) and not isinstance(a, bool) \
+            and not isinstance(b, bool) and b < 0 and a != 0 and abs(b) <= 400:
+        return V.FloatV(float(a) ** b)
+    # Fraction (concrete) with float: the result is a float
+    for x, y, swap in ((a, b, False), (b, a, True)):
+        fx = _concrete_fraction(x)
+        if fx is not None and isinstance(y, V.FloatV) and isinstance(op, (ast.Add, ast.Sub, ast.Mult, ast.Div)):
+            l, r = (y.value, float(fx)) if swap else (float(fx), y.value)
+            try:
+                return V.FloatV(self.py_arith(op, l, r))
+            except ZeroDivisionError:
+                raise self.raise_ext("ZeroDivisionError")
+    return _orig_binop2(self, ctx, op, a, b)
+
+
+Lib.binop = binop2
+
+
+# ---------------------------------------------------------------------------------------------------- `a or b` as a value
+_orig_ex_BoolOp = Engine.ex_BoolOp
+
+
+def ex_BoolOp(self, ctx, e, env):
+    """`x or default` / `x and y` yield one of the operands, not a truth value, when the operands are not booleans."""
+    if all(symexec._pure_simple(v) for v in e.values):
+        vals = [self.eval(ctx, v, env) for v in e.values]
+        if any(not isinstance(v, (bool, z3.BoolRef)) for v in vals):
+            is_and = isinstance(e.op, ast.And)
+            for i, v in enumerate(vals):
+                if i == len(vals) - 1:
+                    return v
+                t = ctx.decide(self.truth(ctx, v))
+                if (is_and and not t) or (not is_and and t):
+                    return v
+    return _orig_ex_BoolOp(self, ctx, e, env)
+
+
+Engine.ex_BoolOp = ex_BoolOp
